@@ -1,17 +1,18 @@
+\* slots occupied by the environment itself (phantom sessions of the rig) next to real sessions, all interleavings
 CONSTANTS
-  N = 1
-  MaxSess = 3
+  N = 3
+  MaxSess = 2
   Round = 2
   AsIs_D11 = FALSE
   Pattern = "suffix"
   AllowNonTLS = FALSE
-  Classes = {"in_wss", "out_wss", "in_ws", "empty", "unparsable"}
+  Classes = {"in_wss", "out_wss"}
   MaxNoOffer = 1
   MaxTimeouts = 3
   EnvAtQuiet = FALSE
   GenNoFaults = FALSE
   GenHold = 0
-  MaxPhantom = 0
+  MaxPhantom = 2
 SPECIFICATION FairSpec
 INVARIANTS TypeOK SlotRange CapacityHonoured ReleasedAtMostOnce ReleasedAtEnd NoEarlyRelease RetNeverBlocks CounterMatches ReportedOK RelayPolicy FullCapacityAgain
 PROPERTY PollsAgain
